@@ -127,7 +127,9 @@ pub struct C07 {
 }
 
 fn decode_conflict_free(tape: &[u16], params: &Params, hints: bool, async_weight: u32) -> StructCase {
-    let mut t = Tape::new(tape);
+    let split = tape.len().min(64);
+    let (head, tail) = tape.split_at(split);
+    let mut t = Tape::new(tail);
     let (u, problem) = gen_conflict_free(&mut t, params, hints);
     let rt = if async_weight == 0 {
         Runtime::Sync
@@ -138,7 +140,7 @@ fn decode_conflict_free(tape: &[u16], params: &Params, hints: bool, async_weight
         u,
         problem,
         rt,
-        extra: t.rest().iter().copied().take(64).collect(),
+        extra: head.to_vec(),
         more: vec![],
     }
 }
